@@ -29,7 +29,7 @@ type BatchCase struct {
 	Chunks      []int  // reader path: bytes per Read (cycled)
 	Batch       int
 	BatchBuffer int
-	SlowEvery   int // consumer pauses 200us before every SlowEvery-th receive, 40 times at most (0 = never)
+	SlowEvery   int      // consumer pauses 200us before every SlowEvery-th receive, 40 times at most (0 = never)
 	Obs         *pbt.Obs `json:"-"`
 }
 
